@@ -20,7 +20,7 @@ RULE = (
     "extra_coords {none, 1, 2} x projection {none, (2e+1, -n), (e+n, e-n), axis swap}; explicit coordinates {1-D axes, 2-D meshgrid, "
     "non-meshgrid (must raise), coordinates together with shape/spacing/region (must raise)}; custom dims and data_names, 4 components "
     "without names (must raise), missing region (must raise). profile(): lattice end points (vertical, horizontal, reversed, "
-    "coincident) x size 1..5 x projection with inverse x extra_coords. scatter(): regions x sizes 0..4 x seeds 0..3 x projection. Real "
+    "coincident) x size 1..5 x projection with inverse (linear, rotated and a non-linear Mercator-like one) x extra_coords; explicit coordinates also descending / unsorted. scatter(): regions x sizes 0..4 x seeds 0..3 x projection. Real "
     "gridders (Trend, KNeighbors, Chain, Vector) fitted to asymmetric data are cross-checked against their own predict. "
     "Non-trivial: non-square grids / profiles with >= 2 points."
 )
@@ -57,6 +57,10 @@ def cases(tier, seed):
                     for extra in (0, 1):
                         for proj in ("none", "rot"):
                             yield dict(kind="coords", region=ri, nn=nn, ne=ne, form=form, extra=extra, proj=proj)
+                # explicit coordinates need not be ascending (north-up rasters): added after seed C05-1
+                for form in ("1d", "2d"):
+                    for order in ("desc_n", "desc_e", "desc_both", "unsorted"):
+                        yield dict(kind="coords", region=ri, nn=nn, ne=ne, form=form, extra=0, proj="none", order=order)
     for nc in (1, 2, 3, 4):
         for names in ("default", "custom", "short", "str"):
             for dims in ("default", "custom"):
@@ -66,10 +70,10 @@ def cases(tier, seed):
     for p1 in pts:
         for p2 in pts:
             for size in (1, 2, 3, 5):
-                for proj in ("none", "affine", "rot"):
+                for proj in ("none", "affine", "rot", "mercator"):
                     for extra in (0, 1):
                         for nc in (1, 2):
-                            if nc == 2 and (extra or proj == "affine"):
+                            if nc == 2 and (extra or proj in ("affine", "mercator")):
                                 continue
                             yield dict(kind="profile", p1=list(p1), p2=list(p2), size=size, proj=proj, extra=extra, nc=nc)
     for ri in range(len(REGIONS)):
@@ -100,6 +104,15 @@ def _proj(name):
             if inverse:
                 return (e + n) / 2, (e - n) / 2
             return e + n, e - n
+        return f
+    if name == "mercator":
+        # monotone, NON-linear and invertible (added after seed C05-2: linear projections cannot tell "project the end points,
+        # then interpolate" from "interpolate, then project")
+        def f(e, n, inverse=False):
+            e, n = np.asarray(e, dtype=float), np.asarray(n, dtype=float)
+            if inverse:
+                return e / 3.0, 4.0 * np.log(n)
+            return 3.0 * e, np.exp(n / 4.0)
         return f
     if name == "swap":
         def f(e, n, inverse=False):
@@ -230,6 +243,13 @@ def run(case, rec):
         # non-uniform axes are allowed for explicit coordinates
         if ne > 2:
             east = east.copy(); east[1] = east[0] + (east[1] - east[0]) / 4
+        order = case.get("order")
+        if order in ("desc_n", "desc_both"):
+            north = north[::-1].copy()
+        if order in ("desc_e", "desc_both"):
+            east = east[::-1].copy()
+        if order == "unsorted":
+            east = np.roll(east, 1); north = np.roll(north, 1)
         g = _coder(1)
         form = case["form"]
         e2, n2 = np.meshgrid(east, north)
@@ -271,7 +291,7 @@ def run(case, rec):
             return rec.check(False, "grid(coordinates) raised %r" % (ds,))
         _check_dataset(rec, ds, g, east, north, 1, case["proj"], ["scalars"], ("northing", "easting"), extras, "grid(coordinates %s)" % form)
         rec.trivial = nn == ne
-        rec.cls("coords/" + form)
+        rec.cls("coords/" + form + ("/" + order if order else ""))
         return
     if kind == "names":
         nc = case["nc"]
@@ -350,7 +370,7 @@ def run(case, rec):
         dx, dy = q2[0] - q1[0], q2[1] - q1[1]
         sep = math.hypot(dx, dy)
         scale = max([abs(v) for v in q1 + q2] + [sep, 1.0])
-        tol = 32 * math.ulp(scale)
+        tol = 32 * math.ulp(scale) if case["proj"] != "mercator" else 1e-12 * scale
         for i in range(size):
             t = 0.0 if size == 1 else i / (size - 1)
             xe, xn = q1[0] + t * dx, q1[1] + t * dy  # projected (Cartesian) profile point
